@@ -40,8 +40,9 @@ RefSB(r) == /\ r.ref # "undef" /\ ~StarOn(TagsOf(r))
             /\ LET p == Parsed(r.input) IN AllWellFormed(p) /\ ~(HasEmptyLine(p) /\ W_ignore \in TagsOf(r))
 RefMF(r) == r.ref # "undef" /\ ~StarOn(TagsOf(r))
 
-\* A failing record is named on stdout ("BAD", invariant, index); the run uses -continue.
-Bad(name) == PrintT(<<"BAD", name, i>>) /\ FALSE
+\* A failing record is named on stdout ("BAD", invariant, index).  PrintT is TRUE, so
+\* the invariants always hold and TLC ends normally; the BAD lines are the verdict.
+Bad(name) == PrintT(<<"BAD", name, i>>)
 RecNoPanic == (Live => ~Trace[i].panic) \/ Bad("RecNoPanic")
 RecShouldBuild == ((IsSB /\ JudgedSB(Trace[i])) => ShouldBuild(Trace[i].input, TagsOf(Trace[i])) = Trace[i].got)
                      \/ Bad("RecShouldBuild")
